@@ -5,7 +5,11 @@ package main
 // boundary — within a per-input time budget, for arbitrary source strings and host values.
 
 import (
+	"bytes"
 	"fmt"
+	"os"
+	"os/exec"
+	"runtime/debug"
 	"strings"
 	"time"
 
@@ -17,6 +21,22 @@ func init() { props["C12"] = runC12 }
 type hostCyclic struct {
 	Next *hostCyclic `yae:"next,maybe"`
 	V    int         `yae:"v"`
+}
+
+type hostOrder struct {
+	ID       int           `yae:"id"`
+	Customer *hostCustomer `yae:"customer"`
+}
+
+type hostCustomer struct {
+	Name string      `yae:"name"`
+	Last *hostOrder  `yae:"last"`
+	Any  interface{} `yae:"any"`
+}
+
+type hostTree struct {
+	V    int         `yae:"v"`
+	Kids []*hostTree `yae:"kids"`
 }
 
 func c12Hosts() []interface{} {
@@ -37,6 +57,16 @@ func c12Hosts() []interface{} {
 	cyc := &hostCyclic{V: 1}
 	cyc.Next = cyc
 	var nilp *st
+	order := &hostOrder{ID: 7, Customer: &hostCustomer{Name: "c"}}
+	order.Customer.Last = order // back-reference: a cycle made of struct-field hops only
+	viaIface := &hostCustomer{Name: "i"}
+	viaIface.Any = viaIface // cycle through an interface-typed field
+	tree := &hostTree{V: 1}
+	tree.Kids = []*hostTree{tree} // cycle through a slice element
+	ringMap := map[string]interface{}{}
+	ringMap["self"] = ringMap // cycle through a map value
+	a2, b2 := &hostCyclic{V: 1}, &hostCyclic{V: 2}
+	a2.Next, b2.Next = b2, a2 // two-node ring
 	deep := map[string]interface{}{}
 	cur := deep
 	for i := 0; i < 150; i++ {
@@ -51,7 +81,7 @@ func c12Hosts() []interface{} {
 		map[int]int{1: 2}, []int{1}, struct{ A, B int }{1, 2}, struct {
 			A int `yae:"a"`
 			B int `yae:"a"`
-		}{1, 2}, cyc, deep, map[string]interface{}{"x": map[string]interface{}{}}, map[string]interface{}{"x": []int(nil)},
+		}{1, 2}, cyc, order, *order, viaIface, tree, ringMap, a2, map[string]interface{}{"x": order}, deep, map[string]interface{}{"x": map[string]interface{}{}}, map[string]interface{}{"x": []int(nil)},
 		struct{ U uint64 }{1 << 63}, struct{ C complex128 }{1}, map[string]interface{}{"x": 1.5, "s": "héllo", "xs": []float64{1, 2}, "m": map[string]float64{"k": 1}},
 	}
 }
@@ -146,7 +176,42 @@ func runC12(r *Run) {
 		c12Api(r, c)
 		r.Sample(c)
 	}
+	// every hostile host value first in a CHILD process: a runaway reflective walk ends in a fatal stack overflow, which
+	// no recover can turn into an error and which would take this process down with it
+	crashed := map[int]bool{}
 	for i, h := range hosts {
+		cmd := exec.Command(os.Args[0], "C12child", fmt.Sprint(i))
+		var eb bytes.Buffer
+		cmd.Stderr = &eb
+		done := make(chan error, 1)
+		if err := cmd.Start(); err != nil {
+			continue
+		}
+		go func() { done <- cmd.Wait() }()
+		select {
+		case err := <-done:
+			if err != nil {
+				crashed[i] = true
+				line := firstLine(eb.String())
+				for _, l := range strings.Split(eb.String(), "\n") {
+					if strings.HasPrefix(l, "fatal error") || strings.HasPrefix(l, "panic:") {
+						line = l
+						break
+					}
+				}
+				r.Violate("process-crash:host-value", fmt.Sprintf("host#%d(%T) passed to Eval / Compile / Callable / Debug", i, h), fmt.Sprintf("child process died: %v: %s", err, line))
+			}
+		case <-time.After(90 * time.Second):
+			cmd.Process.Kill()
+			crashed[i] = true
+			r.Violate("time-budget:host-value", fmt.Sprintf("host#%d(%T)", i, h), "child process still running after 90 s")
+		}
+		r.Count("host values probed in a child process")
+	}
+	for i, h := range hosts {
+		if crashed[i] {
+			continue
+		}
 		for _, c := range []string{`x`, `1`, `x + 1`, `next`, `d`, `v`, `i`, `a`} {
 			c12One(r, c, h, fmt.Sprintf("host#%d(%T)", i, h), budget)
 		}
@@ -205,4 +270,31 @@ func runC12(r *Run) {
 		c12One(r, src, good, "map", budget)
 		c12Api(r, src)
 	}
+}
+
+// c12Child: run the four API entry points on hostile host value #i and exit 0 (see runC12).
+func c12Child(i int) {
+	debug.SetMaxStack(64 << 20)
+	hosts := c12Hosts()
+	if i < 0 || i >= len(hosts) {
+		os.Exit(3)
+	}
+	h := hosts[i]
+	for _, src := range []string{`1`, `x`, `id + 1`, `v`, `name`} {
+		protect(func() { yae.Eval(src, h) })
+		var cl yae.Callable
+		var err error
+		protect(func() { cl, err = yae.NewExpr().Compile(src, h) })
+		if err == nil && cl != nil {
+			protect(func() { cl(h) })
+		}
+		protect(func() { yae.Debug(src, h) })
+	}
+	// compiled against ordinary data, invoked with the hostile value
+	var cl yae.Callable
+	protect(func() { cl, _ = yae.NewExpr().Compile(`1`, map[string]interface{}{}) })
+	if cl != nil {
+		protect(func() { cl(h) })
+	}
+	os.Exit(0)
 }
